@@ -64,6 +64,8 @@ pub const VARIANTS: &[(&str, &[&str])] = &[
     ("weak-many", &["C05"]),
     ("handles-many", &["C14"]),
     ("cycles-many", &["C09", "C10"]),
+    ("carry-many", &["C10"]),
+    ("fanout-stepped", &["C07"]),
 ];
 
 /// A wide root: n children of one object (the gray queue holds them all at once), n weak
@@ -74,6 +76,8 @@ struct Wide<'gc> {
     kids: Gc<'gc, RefLock<Vec<Gc<'gc, RefLock<Par<'gc>>>>>>,
     weaks: Gc<'gc, RefLock<Vec<GcWeak<'gc, Cnt>>>>,
     set: DynamicRootSet<'gc>,
+    /// held by the root itself (written through `mutate_root`)
+    extra: Option<Gc<'gc, RefLock<Par<'gc>>>>,
 }
 
 /// A parent that may adopt one child.
@@ -85,7 +89,7 @@ struct Par<'gc> {
 }
 
 fn wide<'gc>(mc: &Mutation<'gc>) -> Wide<'gc> {
-    Wide { kids: Gc::new(mc, RefLock::new(Vec::new())), weaks: Gc::new(mc, RefLock::new(Vec::new())), set: DynamicRootSet::new(mc) }
+    Wide { kids: Gc::new(mc, RefLock::new(Vec::new())), weaks: Gc::new(mc, RefLock::new(Vec::new())), set: DynamicRootSet::new(mc), extra: None }
 }
 
 /// The scenario itself. Err(message) = the property is violated.
@@ -230,23 +234,28 @@ fn scenario(variant: &str, n: usize) -> Result<(), String> {
                 w
             });
             arena.finish_marking();
-            arena.mutate(|mc, root| {
+            // in the same marking phase the root itself adopts a fresh object (root re-trace)
+            arena.mutate_root(|mc, root| {
                 for (i, p) in root.kids.borrow().iter().enumerate() {
                     p.borrow_mut(mc).kid = Some(Gc::new(mc, Cnt(i as u32)));
                 }
+                root.extra = Some(Gc::new(mc, RefLock::new(Par { c: Cnt(7), kid: Some(Gc::new(mc, Cnt(8))) })));
             });
-            arena.finish_cycle();
+            let _ = std::panic::catch_unwind(std::panic::AssertUnwindSafe(|| arena.finish_cycle()));
+            if drops() != 0 {
+                return Err(format!("{n} fully marked parents each adopted a fresh child through borrow_mut and the root adopted a fresh object, all in one marking phase; {} values were destructed by the cycle that followed", drops()));
+            }
             arena.finish_cycle();
             if drops() != 0 {
                 return Err(format!("{n} fully marked parents each adopted a fresh child through borrow_mut; {} values were destructed by the cycles that followed", drops()));
             }
-            let bad = arena.mutate(|_, root| root.kids.borrow().iter().filter(|p| p.borrow().kid.is_none()).count());
+            let bad = arena.mutate(|_, root| root.kids.borrow().iter().filter(|p| p.borrow().kid.is_none()).count() + root.extra.map_or(1, |e| e.borrow().kid.is_none() as usize));
             if bad != 0 {
-                return Err(format!("{bad} of {n} adopted children read back as missing"));
+                return Err(format!("{bad} of {} adopted children read back as missing", n + 1));
             }
             drop(arena);
-            if drops() != 2 * n {
-                return Err(format!("{} of {} destructors ran by the time the arena was gone", drops(), 2 * n));
+            if drops() != 2 * n + 2 {
+                return Err(format!("{} of {} destructors ran by the time the arena was gone", drops(), 2 * n + 2));
             }
         }
         "weak-many" => {
@@ -368,6 +377,76 @@ fn scenario(variant: &str, n: usize) -> Result<(), String> {
             drop(arena);
             if drops() != RING + 5 * iters || m.total_gc_count() != 0 {
                 return Err(format!("{} of {} destructors ran by the time the arena was gone, count {}", drops(), RING + 5 * iters, m.total_gc_count()));
+            }
+        }
+        "carry-many" => {
+            // with all work factors zero collection work pays nothing: a cycle that does not run
+            // atomically carries its debt over unchanged - at the 3rd cycle and at the 3000th
+            let mut arena = Arena::<Rootable![Wide<'_>]>::new(|mc| {
+                let w = wide(mc);
+                w.kids.borrow_mut(mc).push(Gc::new(mc, RefLock::new(Par { c: Cnt(0), kid: None })));
+                w
+            });
+            arena.metrics().set_pacing(gc_arena::metrics::Pacing { sleep_factor: 0.0, min_sleep: 0, ..gc_arena::metrics::Pacing::STOP_THE_WORLD });
+            let m = arena.metrics().clone();
+            arena.finish_cycle();
+            let iters = (n / 64).clamp(3_000, 30_000);
+            for i in 0..iters {
+                arena.finish_marking();
+                let d0 = m.allocation_debt();
+                m.adjust_debt(8.0);
+                let before = m.allocation_debt();
+                if before != d0 + 8.0 && d0 > 0.0 {
+                    return Err(format!("cycle {i}: adjust_debt(8) took the debt from {d0} to {before}"));
+                }
+                arena.finish_cycle();
+                let after = m.allocation_debt();
+                if after != before {
+                    return Err(format!("cycle {i}: all work factors are zero, yet finishing a cycle that did not run atomically took the debt from {before} to {after}"));
+                }
+                m.adjust_debt(-after);
+            }
+            if drops() != 0 {
+                return Err(format!("{} reachable values destructed", drops()));
+            }
+        }
+        "fanout-stepped" => {
+            // marking paid one work unit at a time over a queue of n entries: a MarkedArena must not
+            // be handed out before everything reachable is marked
+            let n = n.min(400_000);
+            let mut arena = Arena::<Rootable![Wide<'_>]>::new(|mc| {
+                let w = wide(mc);
+                let mut v = w.kids.borrow_mut(mc);
+                for i in 0..n {
+                    v.push(Gc::new(mc, RefLock::new(Par { c: Cnt(i as u32), kid: Some(Gc::new(mc, Cnt(i as u32))) })));
+                }
+                drop(v);
+                w
+            });
+            let m = arena.metrics().clone();
+            arena.finish_cycle();
+            let mut calls = 0usize;
+            let dead = loop {
+                let d = m.allocation_debt();
+                if !(d > 0.0) {
+                    m.adjust_debt(1048576.0);
+                }
+                let d = m.allocation_debt();
+                m.adjust_debt(1.0 / 1024.0 - d);
+                calls += 1;
+                if let Some(marked) = arena.mark_debt() {
+                    break marked.finalize(|fc, root| root.kids.borrow().iter().filter(|p| Gc::is_dead(fc, **p) || p.borrow().kid.is_some_and(|k| Gc::is_dead(fc, k))).count());
+                }
+                if calls > 8 * n + 1000 {
+                    return Err(format!("marking {n} objects one work unit at a time has not finished after {calls} calls"));
+                }
+            };
+            if dead != 0 {
+                return Err(format!("a MarkedArena was handed out after {calls} single-unit marking calls; {dead} of {n} strongly reachable objects (or their children) report is_dead"));
+            }
+            arena.finish_cycle();
+            if drops() != 0 {
+                return Err(format!("{} of {} reachable values were destructed", drops(), 2 * n));
             }
         }
         _ => return Err(format!("unknown scale variant {variant}")),
